@@ -305,7 +305,11 @@ pub fn window_set(w: usize) -> Vec<Vec<f64>> {
         6 => vec![vec![1.0], vec![-1.0, 1.0], vec![0.5, -0.5, -0.5, 0.5]],
         7 => vec![vec![1.0], vec![-1.0, 1.0]],
         // four windows, the last one of width 7
-        _ => vec![vec![1.0], vec![-0.5, 0.0, 0.5], vec![1.0, -2.0, 1.0], vec![-0.1, 0.05, 0.2, 0.0, -0.2, -0.05, 0.1]],
+        8 => vec![vec![1.0], vec![-0.5, 0.0, 0.5], vec![1.0, -2.0, 1.0], vec![-0.1, 0.05, 0.2, 0.0, -0.2, -0.05, 0.1]],
+        // the static window stored with zero padding (width 3, resp. 2) - it still only looks at its own frame
+        9 => vec![vec![0.0, 1.0, 0.0], vec![-0.5, 0.0, 0.5]],
+        10 => vec![vec![0.0, 1.0, 0.0]],
+        _ => vec![vec![0.0, 1.0], vec![-0.5, 0.0, 0.5], vec![1.0, -2.0, 1.0]],
     }
 }
 
@@ -318,6 +322,8 @@ pub fn default_questions() -> Vec<(String, Vec<String>)> {
             vec!["*/A:-??+*".to_string(), "*/A:-?+*".to_string(), "*/A:0+*".to_string()],
         ),
         ("R-Phone_N".to_string(), vec!["*+N=*".to_string()]),
+        // "the phoneme after next is undefined" (the last-but-one label of every sentence): asks about the xx marker
+        ("RR-Phone_undefined".to_string(), vec!["*=xx/A:*".to_string()]),
     ]
 }
 
@@ -407,6 +413,9 @@ impl GenCfg {
     fn tree_for(&self, s: usize) -> (TreeSpec, usize) {
         if self.tree == 0 || s % 2 == 1 {
             (TreeSpec::Leaf(1), 1)
+        } else if self.tree == 2 {
+            // trees that ask about an undefined phoneme slot first
+            (TreeSpec::node(4, TreeSpec::node(0, TreeSpec::Leaf(2), TreeSpec::Leaf(3)), TreeSpec::Leaf(1)), 3)
         } else if self.variant % 2 == 0 {
             (TreeSpec::node(0, TreeSpec::node(1, TreeSpec::Leaf(3), TreeSpec::Leaf(1)), TreeSpec::Leaf(2)), 3)
         } else {
@@ -423,6 +432,8 @@ impl GenCfg {
         // duration: one tree (state 2) with pdf = n means + n variances
         let (dtree, dleaves) = if self.tree == 0 {
             (TreeSpec::Leaf(1), 1)
+        } else if self.tree == 2 {
+            (TreeSpec::node(4, TreeSpec::node(1, TreeSpec::Leaf(3), TreeSpec::Leaf(1)), TreeSpec::Leaf(2)), 3)
         } else {
             (TreeSpec::node(0, TreeSpec::node(1, TreeSpec::Leaf(3), TreeSpec::Leaf(1)), TreeSpec::Leaf(2)), 3)
         };
